@@ -1,4 +1,4 @@
-import H2V.Lemmas.ConnPartPGaProp
+import H2V.Lemmas.ConnPartPGaErr
 /-
   C15 (cover) — a received GOAWAY fails EVERY locally initiated stream above its last-stream-id (and
   every stream still waiting to be opened), with the peer's reason, and touches NO other stream.
@@ -73,7 +73,8 @@ theorem failed_state_carries_peer_reason (a : Stream) (debug : Bytes) (reason : 
     capacity: `send_flow.available`, `send_task`/`open_task` (unchanged, or taken and woken),
     `send_capacity_inc` (never cleared), `is_pending_send_capacity`, `is_pending_send`.  In particular
     its state, queued frames, received events, handle count, windows, content-length bookkeeping and
-    `is_counted` are untouched: streams at or below the cut-off run on. -/
+    `is_counted` are untouched, and if the id map pointed to it, it still does (frames of the peer for
+    it are still routed to it): streams at or below the cut-off run on. -/
 theorem goaway_leaves_other_streams_untouched (s s' : Streams) (h : Good s) (last : Nat) (reason : Reason)
     (debug : Bytes) (hok : s.recvGoAwayFrame last reason debug = (s', .ok ())) :
     (∀ k, s.store.get? k = none → s'.store.get? k = none) ∧
@@ -84,8 +85,54 @@ theorem goaway_leaves_other_streams_untouched (s s' : Streams) (h : Good s) (las
                      sendTask := b.sendTask, openTask := b.openTask, sendCapacityInc := b.sendCapacityInc,
                      isPendingSendCapacity := b.isPendingSendCapacity, isPendingSend := b.isPendingSend } ∧
         SlotStep (newWakes s s') a.sendTask b.sendTask ∧ SlotStep (newWakes s s') a.openTask b.openTask ∧
-        (a.sendCapacityInc = true → b.sendCapacityInc = true) :=
+        (a.sendCapacityInc = true → b.sendCapacityInc = true) ∧
+        (∀ e ∈ s.store.ids, e.2 = k → e ∈ s'.store.ids) :=
   recvGoAwayFrame_keeps_others s s' h last reason debug hok
+
+/-- **the same coverage for `Inner::handle_error(err)`** — what runs when WE send the GOAWAY of a fatal
+    error (`handle_go_away`), on an I/O error and on `abrupt_shutdown`: `conn_error = err`; no entry appears;
+    EVERY stream the id map knows — whoever initiated it, whatever its id — is released, or ends with state
+    `failState err` (`Closed(Error(err))`, `ErrorAfterEndStream` when the peer had ended it; a closed stream
+    keeps its cause), send queue empty, nothing buffered or requested, nobody parked and everybody that was
+    parked woken, everything else as before (`Failed`, spelled out by `goaway_fails_every_stream_above_cutoff`);
+    every slab entry the id map does NOT know (unlinked earlier, kept by a handle) is not visited: it is the
+    same entry up to the six capacity-assignment fields (`Unt`). -/
+theorem handle_error_fails_every_linked_stream (s : Streams) (h : Good s) (err : PErr) :
+    (s.handleError err).1.actions.connError = some err ∧
+    (∀ k, s.store.get? k = none → (s.handleError err).1.store.get? k = none) ∧
+    (∀ e ∈ s.store.ids, ∀ a, s.store.get? e.2 = some a →
+      (s.handleError err).1.store.get? e.2 = none ∨
+      ∃ b, (s.handleError err).1.store.get? e.2 = some b ∧
+        b.state = failState err a ∧ b.pendingSend = [] ∧ b.bufferedSendData = 0 ∧ b.requestedSendCapacity = 0 ∧
+        b.sendTask = none ∧ b.openTask = none ∧ b.recvTask = none ∧ b.pushTask = none ∧
+        (∀ t, (a.sendTask = some t ∨ a.openTask = some t ∨ a.recvTask = some t ∨ a.pushTask = some t) →
+          t ∈ newWakes s (s.handleError err).1) ∧
+        b.id = a.id ∧ b.refCount = a.refCount ∧ b.pendingRecv = a.pendingRecv ∧ b.recvFlow = a.recvFlow ∧
+        b.inFlightRecvData = a.inFlightRecvData ∧ b.isPendingOpen = a.isPendingOpen) ∧
+    (∀ k a, s.store.get? k = some a → (∀ e ∈ s.store.ids, e.2 ≠ k) →
+      ∃ b, (s.handleError err).1.store.get? k = some b ∧
+        b = { a with sendFlow := { a.sendFlow with available := b.sendFlow.available },
+                     sendTask := b.sendTask, openTask := b.openTask, sendCapacityInc := b.sendCapacityInc,
+                     isPendingSendCapacity := b.isPendingSendCapacity, isPendingSend := b.isPendingSend }) := by
+  obtain ⟨h1, h2, h3, h4⟩ := handleError_cover s h err
+  refine ⟨h1, h2, fun e he a ha => ?_, fun k a ha hnl => ?_⟩
+  · rcases h3 e he a ha with hn | ⟨b, hb, hf, hw⟩
+    · exact Or.inl hn
+    · exact Or.inr ⟨b, hb, hf.state, hf.cleared.1, hf.cleared.2, hf.cleared.3, hf.resolved.2.1, hf.resolved.2.2.1,
+        hf.resolved.2.2.2.1, hf.resolved.2.2.2.2, hw, hf.id, hf.refCount, hf.pendingRecv, hf.recvFlow,
+        hf.inFlightRecvData, hf.isPendingOpen⟩
+  · obtain ⟨b, hb, hu⟩ := h4 k a ha hnl
+    exact ⟨b, hb, hu.eq⟩
+
+/-- non-vacuity: `handle_error(library GOAWAY PROTOCOL_ERROR)` on `Demo.d5` fails all three streams (the wake
+    order shows the `swap_remove` walk: entry 0 is unlinked, the last entry — stream 5, waiter `q` — takes its
+    place and is visited next, then stream 3, waiter `s1`) -/
+example : ((Demo.d5.handleError (PErr.libraryGoAway PROTOCOL_ERROR)).1.stream 0).state =
+      { inner := .closed (.error (.goAway [] PROTOCOL_ERROR .library)) } ∧
+    ((Demo.d5.handleError (PErr.libraryGoAway PROTOCOL_ERROR)).1.stream 2).state =
+      { inner := .closed (.error (.goAway [] PROTOCOL_ERROR .library)) } ∧
+    (Demo.d5.handleError (PErr.libraryGoAway PROTOCOL_ERROR)).1.store.ids = [] ∧
+    (Demo.d5.handleError (PErr.libraryGoAway PROTOCOL_ERROR)).1.wakes = ["q", "s1"] := by decide
 
 /-- **the hypothesis `Good s` is no restriction**: it holds in every state reachable from the initial
     state of either role through the operations of the stream layer (ConnWakeP's `Reachable`) -/
@@ -126,4 +173,5 @@ end H2V.Props.C15Cover
 #print axioms H2V.Props.C15Cover.goaway_fails_every_stream_above_cutoff
 #print axioms H2V.Props.C15Cover.failed_state_carries_peer_reason
 #print axioms H2V.Props.C15Cover.goaway_leaves_other_streams_untouched
+#print axioms H2V.Props.C15Cover.handle_error_fails_every_linked_stream
 #print axioms H2V.Props.C15Cover.store_invariant_holds
